@@ -1,0 +1,18 @@
+//go:build verif
+
+// Contracts for the deductive verifier under /verif (govc). Comment-only file: it adds no code and is
+// compiled only with the build tag "verif".
+
+package lexeme
+
+// ---- deferred panic handlers: they never swallow a panic (they re-panic with a converted value) ---------------
+
+//@ func CatchLexEventError
+//@   property C07 C16
+//@   rethrows
+//@   at call:NewJSchemaError assume arg1 != nil
+
+//@ func CatchLexEventErrorWithIncorrectUserType
+//@   property C07 C16
+//@   rethrows
+//@   at call:NewJSchemaError assume arg1 != nil
